@@ -70,7 +70,7 @@ claim('C01',
       "operand order and non-overlap preconditions of the multi-limb multipliers, no leak - over ASSUMED shape contracts of mpn_mul/sqr/basecase.",
       TB + "NOT decided: the VALUE computed by mpn_mul/mul_n/sqr and every algorithm above one row (schoolbook accumulation, Karatsuba, Toom, FFT) - they "
       "need mathematical integers / polynomial identities that CBMC's bit-vector logic cannot express; mpz_mul with three distinct arguments (no solver "
-      "verdict, DESIGN 11.3), mpz_mul_ui/si, mpz_addmul/submul: no unit.")
+      "verdict, DESIGN 11.3), mpz_addmul/submul: no unit. mpz_mul_ui / mpz_mul_si ARE proved limb-exact over the proved mpn_mul_1 contract (sign, size un or un+1, carry limb, w == u).")
 claim('C02',
       "Glue proofs over ASSUMED truncating division: for every value and every permitted aliasing of (q, r, n, d), mpz_fdiv_qr/q/r, mpz_cdiv_qr/q/r and "
       "mpz_mod return exactly the manual's floor/ceiling/non-negative quotient and remainder expressed through the truncating pair (adjust iff the "
@@ -94,10 +94,15 @@ claim('C17',
       "covered: mpz_export/import, out_str/inp_str for mpz/mpq/mpf, gmp_fprintf.")
 
 claim('C06',
-      "Full-domain proof (loop-free, all sizes and limb contents, the real mp_bases table linked in) that mpz_sizeinbase is the exact digit count "
-      "ceil(bitlength/k) for the power-of-two bases 2,4,...,256, and 1 for zero.",
-      TB + "NOT covered: digit exactness of mpz_get_str/mpn_get_str/mpz_out_str, every string parser (mpz_set_str, mpz_inp_str, mpq_set_str), "
-      "mpz_sizeinbase for bases that are not powers of two (floating-point log table), the +2 byte bound. The claim is this one function.")
+      "Power-of-two bases 2,4,...,256, unbounded in the operand length (inductive invariants, one unit per base, the real mp_bases table linked in): "
+      "mpn_get_str returns exactly D = ceil(bitlength/k) digits and digit j is the k-bit field [(D-1-j)k, (D-j)k) of the operand, for EVERY j (ghost digit "
+      "index), incl. fields that straddle two limbs and the zero-padded top digit; mpn_set_str places EVERY digit in its k-bit field of the result, writes "
+      "exactly the full limbs plus a non-zero partial top limb, no bit at or above len*k - the two contracts are inverse relations, so the round trip is exact. "
+      "mpz_sizeinbase is the exact digit count ceil(bitlength/k), 1 for zero.",
+      TB + "NOT covered: every base that is not a power of two (mpn_sb_get_str / mpn_dc_get_str / mpn_bc_set_str / mpn_dc_set_str: multi-limb division and "
+      "multiplication by powers of the base - needs mathematical integers), the mpz/mpq/mpf string layers (sign, prefix, whitespace, digit characters, "
+      "allocation of sizeinbase+2 bytes), mpz_inp_str/out_str, mpz_sizeinbase for other bases. mpn_set_str: 'every digit is below the base' is a precondition, "
+      "instantiated at the digit each loop iteration reads; its `for (s = end; s >= str; s--)` header is evaluated as 'stop when s == str' (DESIGN 11.2).")
 claim('C18',
       "Integer layout (__gmp_doprnt_integer, the routine behind %Z/%Q/%N): for symbolic width, precision, flags-derived parameters, base, sign and a "
       "digit string of unbounded length, the byte at EVERY output position (ghost position) is the one the C rule places there - [pad][sign][prefix]"
@@ -131,9 +136,9 @@ na('C08', 'no unit built in this round: only argument-handling glue of mpz_powm/
 na('C09', 'core slice attempted and undecided: the modexact identity behind the perfect-square residue filters did not come back from kissat in 10 min per divisor, the whole-function form in 30 min (DESIGN 11.3); Newton/Zimmermann root iterations are out of reach')
 claim('C13',
       "For the functions that are exact on the stored value - mpf_neg, mpf_abs, mpf_set (top min(size, prec+1) limbs, same exponent, every precision and "
-      "r == u), mpf_integer_p, mpf_get_ui, mpf_get_si, the six mpf_fits_*_p, mpf_set_ui/si, mpf_cmp, mpf_cmp_ui, mpf_set_prec, mpf_init2, mpf_clear - unbounded limb-exact proofs, and the mpf "
+      "r == u), mpf_integer_p, mpf_get_ui, mpf_get_si, the six mpf_fits_*_p, mpf_set_ui/si, mpf_set_z, mpf_cmp, mpf_cmp_ui, mpf_cmp_si, mpf_swap, mpf_trunc, mpf_ceil, mpf_floor (increment exactly when a dropped limb is non-zero in the rounding direction), mpf_mul_2exp, mpf_div_2exp (top limbs shifted by e mod 64 bits, exponent adjusted, carry limb), mpf_set_prec, mpf_init2, mpf_clear - unbounded limb-exact proofs, and the mpf "
       "format rules (top limb non-zero, at most prec+1 limbs in a block of exactly prec+1 limbs, zero has exponent 0) as a proved post-condition.",
-      TB + "NOT covered: mpf_add/sub/mul/div/sqrt and their _ui forms, mpf_set_q/set_z/set_d/set_str, mpf_mul_2exp/div_2exp, floor/ceil/trunc, mpf_get_str - "
+      TB + "NOT covered: mpf_add/sub/mul/div/sqrt and their _ui forms, mpf_set_q/set_d/set_str, mpf_get_str, mpf_ceil/floor with r == u (they hand mpn_add_1 a partially overlapping pair), mpf_mul_2exp/div_2exp with r == u and a bit shift (CBMC out of memory: undecided) - "
       "i.e. every function with rounding; the 2^(2-p) relative error bound is a statement over reals that no contract here expresses.")
 na('C14', 'CBMC has no x86-64 assembly front end, so "assembly kernel == C kernel" is not a contract obligation for any .asm/.as file; fat binary and --enable-* build variants are configurations, not functions under contract (DESIGN.md section 6 C14)')
 na('C16', 'n!, binomials, Fibonacci/Lucas and primality are defined by unbounded products/recurrences and number theory; CBMC has no mathematical integers or induction over them, so no contract within reach expresses the property (DESIGN.md section 6 C16)')
